@@ -89,6 +89,21 @@ def check_trivial_acceptances(ctx, r):
             return None
         return atom
 
+    # the bare form is told apart by `hasattr(cls, "leaftype")`: the base class itself must not carry that attribute
+    # (the namespace it is created with, a class body, or an assignment on the class afterwards)
+    pmod = m.module("_pytree_type")
+    for st in ast.walk(pmod.tree):
+        if isinstance(st, ast.Assign) and any(isinstance(t, ast.Name) and t.id == "PyTree" for t in st.targets) and isinstance(st.value, ast.Call) and len(st.value.args) == 3 \
+                and isinstance(st.value.args[2], ast.Dict):
+            keys = [k.value for k in st.value.args[2].keys if isinstance(k, ast.Constant)]
+            if "leaftype" in keys:
+                ctx.bad("C08.1", (pmod.relpath, "_pytree_type.<module>"), st, "the bare `PyTree` class is created with a `leaftype` attribute: `hasattr(cls, 'leaftype')` no longer tells "
+                        "it apart, so `isinstance(x, PyTree)` flattens and checks x (and can raise) instead of accepting everything", construct="PyTree namespace defines leaftype")
+            else:
+                ctx.ok("C08.1", "_pytree_type.PyTree", f"the bare class is created without `leaftype` (namespace keys {keys})")
+        if isinstance(st, ast.Assign) and any(isinstance(t, ast.Attribute) and isinstance(t.value, ast.Name) and t.value.id == "PyTree" and t.attr == "leaftype" for t in st.targets):
+            ctx.bad("C08.1", (pmod.relpath, "_pytree_type.<module>"), st, "`PyTree.leaftype` is assigned on the bare class: `hasattr(cls, 'leaftype')` no longer tells the bare form apart",
+                    construct="PyTree.leaftype = ...")
     for label, bare, none in (("bare `PyTree` (no leaf type) accepts everything", True, None), ("a top-level None is accepted", False, True)):
         outs = simulate(g, g.entry, stop, lambda n, a_=mk_atom(bare, none): eval_bool(n.ast, a_))
         need(outs, "C08.1: PyTree.__instancecheck__ has no path at all")
